@@ -115,3 +115,15 @@ package benchseries
 //@   ensures ok <==> (has(cs.cells, mkstruct(SeriesKey, benchmark, series)) && cs.cells[mkstruct(SeriesKey, benchmark, series)] != nil)
 //@   ensures ok ==> s == cs.cells[mkstruct(SeriesKey, benchmark, series)].Summary
 //@   ensures !ok ==> s == nil
+
+// sortStringSet: the members of the set, ascending.
+//@ func sortStringSet(m map[string]struct{}) (r []string)
+//@   props C18
+//@   opt allocates
+//@   ensures forall a int, b int :: 0 <= a <= b < len(r) ==> r[a] <= r[b]
+//@   ensures forall i int :: 0 <= i < len(r) ==> has(m, r[i])
+//@   ensures forall k string :: has(m, k) ==> exists i int :: 0 <= i < len(r) && r[i] == k
+//@   loop 1:
+//@     invariant unchanged() && (s == nil || fresh(s))
+//@     invariant forall i int :: 0 <= i < len(s) ==> has(m, s[i])
+//@     invariant forall k string :: visited(k) ==> exists i int :: 0 <= i < len(s) && s[i] == k
